@@ -16,6 +16,9 @@ def run(ctx):
                         'verdict also rests on the public next-edit-succeeds-and-syncs clause']
     ctx.model('RegistryMC', 'RegistryMC', required=('Enter', 'Success', 'Fault', 'Fail', 'Catch'))
     editcheck.run_sweep(ctx, per_template=20 if ctx.quick else 0, n_arg=150 if ctx.quick else 0, props=PROPS)
+    # (F) systematic deletions (single-valued fields, tails / ends of every list field) of every node x field of the corpus
+    editcheck.run_fieldsweep(ctx, variants=(0,) if ctx.quick else tuple(range(10)), per_class=2 if ctx.quick else 6,
+                             props=PROPS)
     n_hist, n_steps = (1300, 10) if ctx.quick else (32000, 20)
     specs = editcheck.history_specs(ctx, n_hist, n_steps)
     res = editcheck.generate(ctx, specs, mode='failing')
